@@ -202,7 +202,8 @@ def run(chk):
         ok_size = PC.has_lit(cl, "self._size < self._low_water", True) is not None or PC.has_lit(cl, "self._size > self._low_water", False) is not None \
             or any({str(l) for l in c} == {"!(self._size)", "(self._size < self._low_water)"} for c in cl)
         ok_chunks = any(any("self._http_chunk_splits is None" in l.text and l.pos for l in c) and any("len(self._http_chunk_splits)" in l.text and "_low_water_chunks" in l.text for l in c) for c in cl)
-        extra = [c for c in cl if not all("self._size" in l.text for l in c) and not (any("_http_chunk_splits" in l.text for l in c))]
+        # `not self._eof`: a finished stream does not resume on behalf of a later message's stream (C09.resume)
+        extra = [c for c in cl if not all("self._size" in l.text for l in c) and not (any("_http_chunk_splits" in l.text for l in c)) and {str(l) for l in c} != {"!(self._eof)"}]
         empty_resumes = any({str(l) for l in c} == {"!(self._size)", "(self._size < self._low_water)"} for c in cl) or PC.has_lit(cl, "self._size <= self._low_water", True) is not None
         if ok_size and ok_chunks and not extra and not empty_resumes:
             chk.violation("C08.flow", res[0][0], K.short(res[0][0]), "(!(self._size) | (self._size < self._low_water))",
